@@ -49,15 +49,19 @@ def tie_images(rng):
     return [g8, p8, rgb, g8]
 
 
-def apng_bad_frame(rng):
-    """RGB 8-bit animation, 10 to 14 full-size frames of smooth data compressed at level 0; one early frame holds a valid zlib stream
-    with too few rows (PngImage::new rejects it)"""
+def apng_bad_frame(rng, kind="bad-early"):
+    """RGB 8-bit animation, 10 to 14 full-size frames of smooth data compressed at level 0; kind "bad-early": one early frame holds a
+    valid zlib stream with too few rows (PngImage::new rejects it); "unshrinkable-first" / "-middle": one frame is a single pixel whose
+    12-byte stream cannot shrink, so that its recompression FAILS to improve while all the others succeed"""
     import struct
     import zlib
     import chunkgen
     w, h = rng.choice([(16, 16), (24, 12), (20, 20)])
     nfr = rng.randrange(10, 15)
     bad = rng.randrange(1, 3)
+    if kind != "bad-early":
+        bad = -1
+    tiny = {"unshrinkable-first": 0, "unshrinkable-middle": nfr // 2}.get(kind, -1)
 
     def frame_stream(short=False):
         base = rng.randrange(256)
@@ -76,6 +80,12 @@ def apng_bad_frame(rng):
     seq += 1
     out += pg.chunk("IDAT", frame_stream())
     for i in range(nfr):
+        if i == tiny:
+            out += pg.chunk("fcTL", chunkgen.fctl(seq, 1, 1, 0, 0, 1, 10, 0, 0))
+            seq += 1
+            out += pg.chunk("fdAT", struct.pack(">I", seq) + zlib.compress(bytes([0, rng.randrange(256), rng.randrange(256), rng.randrange(256)]), 9))
+            seq += 1
+            continue
         out += pg.chunk("fcTL", chunkgen.fctl(seq, w, h, 0, 0, 1, 10, 0, 0))
         seq += 1
         out += pg.chunk("fdAT", struct.pack(">I", seq) + frame_stream(short=(i == bad)))
@@ -210,7 +220,7 @@ def run(rep):
             if (k // 5) % 2 == 0:
                 # purpose-built: many full-size frames stored uncompressed (each certainly shrinks), the undecodable one early, so
                 # that workers which start further down the frame list finish frames a single worker never reaches
-                png = apng_bad_frame(rng)
+                png = apng_bad_frame(rng, ["bad-early", "unshrinkable-first", "unshrinkable-middle", "bad-early"][(k // 10) % 4])
                 o = f"preset={rng.choice([1, 2, 3])}"
             for _ in range(0 if (k // 5) % 2 == 0 else 6):
                 a = chunkgen.gen_apng(rng, extra_frames=rng.choice([3, 4]), split=1)[0]
@@ -279,6 +289,40 @@ def run(rep):
                               {"cases": [m["cmd"]], "variant": "non-parallel build", "default": vlib.short(ra.get(cid), 300), "other": vlib.short(rb.get(cid), 300)})
             else:
                 rep.count("builds-agree")
+    # images large enough for size thresholds and long-running trials: a decision that reads the evaluator's CURRENT best while trials are
+    # still running (or compares against what another worker has finished so far) shows up as a difference between the parallel
+    # build, a single worker and the non-parallel build only on such inputs
+    big = vlib.Cases()
+    for kind in (("idx-gray-noise", "grad") if quick else ("idx-gray-noise", "grad", "idx-gray-noise", "rgb-noise")):
+        w, h = 800, 600
+        if kind == "idx-gray-noise":
+            perm = list(range(256))
+            rng.shuffle(perm)
+            pal = [(g, g, g, 255) for g in perm]
+            data = bytes(rng.randrange(256) for _ in range(w * h))
+            tok = pg.img_token(w, h, 3, 8, False, pal, data)
+        elif kind == "rgb-noise":
+            tok = pg.img_token(w // 2, h // 2, 2, 8, False, None, bytes(rng.randrange(256) for _ in range(w * h * 3 // 4)))
+        else:
+            tok = pg.img_token(w, h, 0, 8, False, None, bytes(((x * 3 + y * 5) ^ (x * y >> 6)) & 255 for y in range(h) for x in range(w)))
+        png = e2e.png_from_token(rng, tok, simple=True)
+        o = "preset=3"
+        big.add(f"opt {o} {png.hex()}", o=o, png=png, kind=kind)
+    bv = {"default-pool": (impl, lambda m: f"opt {m['o']} {m['png'].hex()}"), "threads=1": (impl, lambda m: f"optthreads 1 {m['o']} {m['png'].hex()}"),
+          "threads=16": (impl, lambda m: f"optthreads 16 {m['o']} {m['png'].hex()}")}
+    if os.path.exists(nopar):
+        bv["non-parallel build"] = (nopar, lambda m: f"opt {m['o']} {m['png'].hex()}")
+    bres = {}
+    for name, (exe, mk) in bv.items():
+        bres[name] = vlib.run_cases(exe, [f"{cid} {mk(m)}" for cid, m in big.meta.items()], shards=4)
+        rep.evaluations += len(big.meta)
+    for name, r in bres.items():
+        for cid, m in big.meta.items():
+            if r.get(cid) != bres["default-pool"].get(cid):
+                rep.violation("C06:output-differs", f"output bytes of a large image ({m['kind']}, 800x600, preset 3) differ between the default pool and '{name}'",
+                              {"cases": [m["cmd"]], "variant": name, "default": vlib.short(bres["default-pool"].get(cid), 200), "other": vlib.short(r.get(cid), 200)})
+            else:
+                rep.count("large-agree")
     rep.extra["variants"] = list(variants)
     rep.assumptions.append("interleavings inside libdeflate/zopfli/rayon finer than the two hook points per trial are not forced (atomics are SeqCst; each hook-delimited step touches shared state through get / fetch_min / send only)")
 
